@@ -31,7 +31,7 @@ func propC10(h History) error {
 		return fmt.Errorf("NewReassembler failed: %v", tr.NewErr)
 	}
 	bk := newBook(h)
-	overflow, waited := false, false
+	overflow, waited, nested := false, false, false
 	maxBuf := 0
 	for i, o := range h.Ops {
 		st := &tr.Steps[i]
@@ -39,6 +39,11 @@ func propC10(h History) error {
 			bk.notePush(i, o, st)
 		}
 		for _, cb := range st.CBs {
+			if cb.NestedPush {
+				bk.notePush(cb.PushID, Op{K: opPush, Seq: cb.PushSeq, Typ: cb.PushTyp}, st)
+				nested = true
+				continue
+			}
 			if !cb.IsEv || len(cb.Seqs) == 0 {
 				continue
 			}
@@ -87,6 +92,9 @@ func propC10(h History) error {
 	}
 	if waited {
 		hC10.Class("history-with-complete-event-waiting")
+	}
+	if nested {
+		hC10.Class("history-with-push-from-callback")
 	}
 	if overflow || waited {
 		hC10.NonTrivial(fpHistory(h), h.Describe)
@@ -212,5 +220,20 @@ func TestC10HeldBack(t *testing.T) {
 func TestC10Regress(t *testing.T) { hx.Regress(t, hC10, "TestC10", propC10) }
 
 func TestC10(t *testing.T) {
-	hx.Check(t, hC10, "TestC10", func(rt *rapidT) History { return genHistory(rt, c10Cfg) }, propC10)
+	hx.Check(t, hC10, "TestC10", func(rt *rapidT) History {
+		h := genHistory(rt, c10Cfg)
+		// one history in three: the Stream pushes a record of a new event from inside every top-level
+		// ReassemblyComplete (a push like any other: when the call of the history returns, the buffer is within its
+		// limit and its oldest event is not complete). Only where the new sequences stay inside the ordering window.
+		var hi uint32
+		for _, o := range h.Ops {
+			if isPush(o) && h.off(o.Seq) > hi {
+				hi = h.off(o.Seq)
+			}
+		}
+		if rapid.SampledFrom([]string{"", "pushfresh", ""}).Draw(rt, "reenter") != "" && hi+4000 < 1<<24-1 {
+			h.Reenter = "pushfresh"
+		}
+		return h
+	}, propC10)
 }
